@@ -13,6 +13,13 @@ CHECKS = {
              "plus completely enumerated sub-spaces (all \\uXXXX units; thorough: every Unicode scalar raw and escaped, all 2048x2048 surrogate-unit pairs). "
              "Held-on-what-was-explored, not a proof.",
         note="trusted: CPython float() as correctly rounded strtod reference, the Python reference parser/generator (self-tested against CPython json), gcc sanitizers"),
+    "C03": dict(
+        level="exploration", design="DESIGN.md §3 C03",
+        technique="runtime monitoring: differential oracle inside an ASan/UBSan driver — chunked feeding vs a fresh parser's single call on every prefix, all 2-splits/3-splits enumerated per input",
+        text="For ~10^4 (quick) / ~3*10^5 (thorough) hostile inputs x 8 flag sets the real tokener is fed every 2-chunk split (n<=256), every 3-chunk split (n<=32), the all-1-byte partition and "
+             "random partitions; every call is compared (status, error code, value hash, global end) with a fresh parser on the concatenation; streams are resumed at reported ends. "
+             "Evidence lists the lexical situations in which a chunk boundary was placed (all 43 required kinds or the run is inconclusive).",
+        note="trusted: the library's own one-shot behaviour on a fresh parser is the reference (differential), gcc ASan/UBSan, the shim's allocation ledger"),
 }
 
 NOT_YET = {}
